@@ -536,6 +536,34 @@ def build():
         type_table("src/rdata/naptr.rs", "Naptr", 35, [2, 2, 6, 6, 6, 4]),
     ]
     defs.append(("rd_table", "list (N * (list N * (list N * list N * list N * list N)))", "[" + "; ".join(rows) + "]%N"))
+    # PartialOrd against Ord where they are written separately and Ord is the
+    # canonical order: serial number arithmetic / plain octet order of
+    # length-prefixed pieces / name order in partial_cmp would disagree with cmp
+    zm = strip_comments(read("src/rdata/zonemd.rs"))
+    pb = fn_body(impl_after(zm, r"impl<Octs,\s*Other>\s*PartialOrd<Zonemd<Other>>\s*for\s+Zonemd<Octs>\s*where[^{]*\{", "PartialOrd for Zonemd"), "partial_cmp")
+    m = one(r"match\s+self\.serial(\.into_int\(\))?\.partial_cmp\(\s*&other\.serial(\.into_int\(\))?\s*\)", pb, "Zonemd::partial_cmp serial step")
+    if (m.group(1) is None) != (m.group(2) is None):
+        raise GenError("Zonemd::partial_cmp compares a Serial with an integer")
+    defs.append(("zonemd_partial_serial_arith", "bool", bool_(m.group(1) is None)))
+    pb = fn_body(impl_after(dn, r"impl<N,\s*NN,\s*O,\s*OO>\s*PartialOrd<Rrsig<OO,\s*NN>>\s*for\s+Rrsig<O,\s*N>\s*where[^{]*\{", "PartialOrd for Rrsig"), "partial_cmp")
+    if re.fullmatch(r"\s*Some\(\s*self\.canonical_cmp\(\s*other\s*\)\s*\)\s*", pb):
+        defs.append(("rrsig_partial_serial_arith", "bool", "false"))
+    else:
+        one(r"match\s+self\.expiration\.partial_cmp\(\s*&other\.expiration\s*\)", pb, "Rrsig::partial_cmp expiration step")
+        one(r"match\s+self\.inception\.partial_cmp\(\s*&other\.inception\s*\)", pb, "Rrsig::partial_cmp inception step")
+        defs.append(("rrsig_partial_serial_arith", "bool", "true"))
+    ob = fn_body(impl_after(dn, r"impl<O:\s*AsRef<\[u8\]>,\s*N:\s*ToName>\s*Ord\s+for\s+Rrsig<O,\s*N>\s*\{", "Ord for Rrsig"), "cmp")
+    one(r"^\s*self\.canonical_cmp\(\s*other\s*\)\s*$", ob, "Rrsig::cmp is canonical_cmp")
+    pb = fn_body(impl_after(n3, r"impl<Octs,\s*Other>\s*PartialOrd<Nsec3<Other>>\s*for\s+Nsec3<Octs>\s*where[^{]*\{", "PartialOrd for Nsec3"), "partial_cmp")
+    if re.fullmatch(r"\s*Some\(\s*self\.canonical_cmp\(\s*other\s*\)\s*\)\s*", pb):
+        defs.append(("nsec3_partial_len_first", "bool", "true"))
+    else:
+        one(r"match\s+self\.salt\.partial_cmp\(\s*&other\.salt\s*\)", pb, "Nsec3::partial_cmp salt step")
+        sp = fn_body(impl_after(n3, r"impl<T,\s*U>\s*PartialOrd<U>\s*for\s+Nsec3Salt<T>\s*where[^{]*\{", "PartialOrd for Nsec3Salt"), "partial_cmp")
+        one(r"^\s*self\.0\.as_ref\(\)\.partial_cmp\(\s*other\.as_ref\(\)\s*\)\s*$", sp, "Nsec3Salt::partial_cmp is plain octet order")
+        defs.append(("nsec3_partial_len_first", "bool", "false"))
+    ob = fn_body(impl_after(n3, r"impl<Octs:\s*AsRef<\[u8\]>>\s*Ord\s+for\s+Nsec3<Octs>\s*\{", "Ord for Nsec3"), "cmp")
+    one(r"^\s*self\.canonical_cmp\(\s*other\s*\)\s*$", ob, "Nsec3::cmp is canonical_cmp")
     tx = strip_comments(read("src/rdata/rfc1035/txt.rs"))
     b = impl_after(tx, r"impl<Octs,\s*Other>\s*CanonicalOrd<Txt<Other>>\s*for\s+Txt<Octs>\s*where[^{]*\{", "Txt::canonical_cmp")
     one(r"self\.0\.as_ref\(\)\.cmp\(\s*other\.0\.as_ref\(\)\s*\)", b, "Txt::canonical_cmp is wire octets order")
